@@ -266,6 +266,17 @@ def run(rep: Report, prog: Program, tier: str) -> None:
         raise AnalysisError(f"R4.3: only {n_sites} determine_action_from_outcome sites found in the call-runners (4 confirmed by hand)")
     rep.floor("R4.3", 9)
 
+    rep.rule("R4.8", "the stop reason call() surfaces is the reason the run stopped: the attempt-outcome table of _finalize_attempt (raise-decision / DEFER / ABORT / post-sleep deadline / post-sleep attempt cap) labels each stop with its own reason (= C03 R3.2)")
+    from .c03 import check_finalize
+
+    check_finalize(rep, prog, rid="R4.8")
+    rep.floor("R4.8", 8)
+    rep.rule("R4.9", "a deferred or aborted run ends call() the documented way: DEFER raises RetryExhaustedError(stop_reason=SCHEDULED, next_sleep_s=the delay), ABORT raises AbortRetryError - on the exception path and on the result path of both call-runners (= the DEFER / ABORT rows of C16 R16.2)")
+    from .c16 import sleep_protocol
+
+    sleep_protocol(rep, "R4.9", "R4.9", prog)
+    rep.floor("R4.9", 8)
+
     rep.rule("R4.4", "record_failure assigns last_class, last_classification, last_cause and both last_exc / last_result (the other one to None) on every path; it is the first effect of _handle_failure; no other writer of these fields")
     final_failure_state(rep, "R4.4", prog)
     rep.floor("R4.4", 10)
